@@ -98,9 +98,14 @@ class DrawnPolicy:
         cuts.discard(n)
         edges = [0] + sorted(cuts) + [n]
         out = []
-        for a, b in zip(edges, edges[1:]):
+        for i, (a, b) in enumerate(zip(edges, edges[1:])):
             if b > a:
-                out.append((self._delay(), b - a))
+                if self.mode == 2:
+                    # a true dribble: every segment arrives at its own instant, i.e. in its own
+                    # read (equal arrival times would be coalesced by the receiving socket)
+                    out.append((self.latency + i * 0.0004, b - a))
+                else:
+                    out.append((self._delay(), b - a))
         return out
 
 
@@ -612,6 +617,16 @@ class SimNet:
         self.fds.pop(fd, None)
 
     # connections ----------------------------------------------------------------
+    def ip_of(self, host):
+        """Stable simulated address of a (canonical) host name; literal addresses map to
+        themselves."""
+        if not isinstance(host, str) or not any(c.isalpha() for c in host.split(":")[0]) or ":" in host:
+            return host
+        table = self.__dict__.setdefault("_ips", {})
+        if host not in table:
+            table[host] = "10.9.%d.%d" % (len(table) // 250, 1 + len(table) % 250)
+        return table[host]
+
     def step_wall_clock(self, at, delta):
         """Fault: at virtual time ``at`` the wall clock (time.time, datetime.now) jumps by
         ``delta`` seconds; the monotonic clock and every loop timer are unaffected."""
@@ -790,7 +805,9 @@ class SimLoop(selector_events.BaseSelectorEventLoop):
             await fut
         self.client_port += 1
         caddr = (link.get("src_ip", "10.0.0.1"), self.client_port)
-        saddr = (h, port)
+        # what a connected socket reports as its peer is an ADDRESS, never the name that was
+        # resolved: every simulated host name has a stable address of its own
+        saddr = (net.ip_of(h), port)
         c, s = net.make_pair(caddr, saddr,
                              link.get("c2s") or WholePolicy(latency),
                              link.get("s2c") or WholePolicy(latency),
